@@ -792,6 +792,7 @@ type Exec struct {
 	MaxUnknownFeas    int
 	MaxViolations     int
 	JobWall           time.Duration // wall-clock budget of one job (0 = none); exceeding it is reported as UNWIND
+	CheckDeadline     time.Time     // wall-clock end of the whole check (zero = none): no path starts or continues after it
 	RepoDir           string
 	asmOnce           sync.Once
 	asmProg           *asmProgram
@@ -908,12 +909,17 @@ func (x *Exec) runPath(it workItem, sess, sessA *term.Session, res *JobResult, f
 		res.started = time.Now()
 	}
 	p.deadline = time.Time{}
-	if x.JobWall > 0 {
-		p.deadline = res.started.Add(x.JobWall)
+	if x.JobWall > 0 || !x.CheckDeadline.IsZero() {
+		if x.JobWall > 0 {
+			p.deadline = res.started.Add(x.JobWall)
+		}
+		if !x.CheckDeadline.IsZero() && (p.deadline.IsZero() || x.CheckDeadline.Before(p.deadline)) {
+			p.deadline = x.CheckDeadline
+		}
 		if time.Now().After(p.deadline) {
 			if !res.wallHit {
 				res.wallHit = true
-				res.Errors = append(res.Errors, fmt.Sprintf("UNWIND: job exceeded its wall-clock budget of %v; remaining work items dropped", x.JobWall))
+				res.Errors = append(res.Errors, fmt.Sprintf("UNWIND: job exceeded its wall-clock budget (%v per job, or the budget of the whole check); remaining work items dropped", x.JobWall))
 			}
 			res.Skipped++
 			res.mu.Unlock()
